@@ -7,7 +7,8 @@ import (
 )
 
 var c18Kinds = []string{"pod", "spark", "replicaset", "statefulset", "custom", "deployment", "job", "cronjob", "pytorch", "workflow_pytorch", "tfjob",
-	"mpi", "jobset", "trainjob", "workflow_pod", "notebook", "lws"}
+	"mpi", "jobset", "trainjob", "workflow_pod", "notebook", "lws",
+	"raycluster", "rayjob", "rayservice", "knative", "grove", "dynamo", "jax", "xgboost", "amljob", "runaijob", "seldon", "vmi", "spotrequest", "taskrun", "devworkspace"}
 
 func genC18Meta(t *rapid.T, w *C18Workload) {
 	w.OwnerLabels, w.OwnerAnnots, w.PodLabels, w.PodAnnots, w.TopLabels = map[string]string{}, map[string]string{}, map[string]string{}, map[string]string{}, map[string]string{}
@@ -82,6 +83,23 @@ func GenC18Script(t *rapid.T, thorough bool) *Script {
 			w.Replicas = rapid.IntRange(2, 4).Draw(t, "jsreplicas")
 		case "lws":
 			w.GroupSize = rapid.IntRange(1, 3).Draw(t, "groupsize")
+		case "raycluster", "rayjob", "rayservice":
+			w.Replicas = rapid.IntRange(2, 4).Draw(t, "rayreplicas")
+			w.GroupSize = rapid.IntRange(1, 2).Draw(t, "numofhosts")
+			w.ElasticMin = pick(t, "rayminreplicas", 0, 0, 1, 2)
+			w.AnyOrder = rapid.Bool().Draw(t, "suspendedgroup")
+			w.Delayed = rapid.Bool().Draw(t, "rayvariant")
+		case "knative":
+			w.ElasticMin = pick(t, "minscale", 0, 1, 2, 3)
+			w.Delayed = rapid.Bool().Draw(t, "badminscale")
+		case "grove", "dynamo":
+			w.Replicas = rapid.IntRange(2, 4).Draw(t, "grovereplicas")
+			w.ElasticMin = pick(t, "cliquemin", 0, 1, 2)
+			w.AnyOrder = rapid.Bool().Draw(t, "grovetopology")
+			w.PodPriority = pick(t, "gangpriority", "", "", "train", "high")
+		case "jax", "xgboost":
+			w.Masters = rapid.IntRange(0, 1).Draw(t, "masters")
+			w.MinAvailable = pick(t, "minavail", 0, 0, 1, 2)
 		}
 		c.Workloads = append(c.Workloads, w)
 	}
